@@ -87,6 +87,25 @@ pub async fn pair(opts: PairOpts) -> Result<Pair, String> {
     }
 }
 
+/// Both endpoints built the way the crate's documentation shows — no custom transport — so the
+/// transport parameters are the library's own defaults.
+pub async fn pair_library_defaults() -> Result<Pair, String> {
+    let server = Endpoint::server(ServerConfig::builder().with_bind_address("127.0.0.1:0".parse().unwrap()).with_identity(identity()).build()).map_err(|e| e.to_string())?;
+    let client = Endpoint::client(ClientConfig::builder().with_bind_address("127.0.0.1:0".parse().unwrap()).with_no_cert_validation().build()).map_err(|e| e.to_string())?;
+    let saddr = SocketAddr::new("127.0.0.1".parse().unwrap(), server.local_addr().map_err(|e| e.to_string())?.port());
+    let url = url_for(saddr, "/defaults");
+    let accept = async {
+        let req = accept_request(&server).await?;
+        req.accept().await.map_err(|e| format!("accept failed: {e}"))
+    };
+    let connect = async { client.connect(url).await.map_err(|e| format!("connect failed: {e}")) };
+    match within(Duration::from_secs(20), async { tokio::join!(accept, connect) }).await {
+        Waited::Done((Ok(sconn), Ok(cconn))) => Ok(Pair { server, client, sconn, cconn, relay: None }),
+        Waited::Done((a, b)) => Err(format!("pair setup: server={:?} client={:?}", a.err(), b.err())),
+        Waited::TimedOut => Err("pair setup timed out".into()),
+    }
+}
+
 // ------------------------------------------------------------------------------------ raw quinn
 
 #[derive(Debug)]
